@@ -12,7 +12,7 @@ RULES = {
     'C07.R6': 'graft structure of the composition every binary operator runs (shared with C02.R1/R2): operand edges copied with their own labels, copies paired with the edge targets, schema role by the operand node\'s leaf flag',
     'C07.R4': 'AffFunc operators are element-wise on both fields with the impl\'s own operator, left operand first; Neg negates both fields',
 }
-FLOORS = {'C07.R1': 33, 'C07.R3': 6, 'C07.R4': 17, 'C07.R2': 4, 'C07.R5': 7, 'C07.R6': 8}
+FLOORS = {'C07.R1': 33, 'C07.R3': 10, 'C07.R4': 17, 'C07.R2': 4, 'C07.R5': 7, 'C07.R6': 8}
 EXPLANATION = ('Sibling agreement over 4 operators x 8 ownership forms (+Neg) and the element-wise kernels; with C02.R1 (graft structure) the result is defined exactly '
                'when both operands are and its terminal is context.op(original), i.e. left.op(right).')
 DOES_NOT_DECIDE = 'nothing value-level beyond exact arithmetic; pruning on the fly is covered by C03'
@@ -174,6 +174,16 @@ def run(ctx):
         rets = [x for _, x in R.return_expr()]
         ok = len(c) == 1 and c[0][1][0] == ('param', 'self') and c[0][1][1] == ('param', 'op') and rets == [('param', 'self')]
         (ctx.ok if ok else ctx.bad)('C07.R3', 'AffTree::unary_op_into', 'self.unary_op_inplace(op); self' if ok else 'unary_op_into does not apply op to self', u.span)
+    # ---- R3 (cont.): "every terminal and only terminals" rests on what terminals() / terminals_mut() / decisions() select: arena entries by
+    # their leaf flag, in the right polarity (decided under C13.R6)
+    from ..core import Ctx as _Ctx
+    from . import c13
+    sub3 = _Ctx(ctx.facts, ctx.tier, ctx.prop)
+    c13.r6(sub3)
+    for i in sub3.insts:
+        if i.rule == 'C13.R6' and i.site in ('Tree::terminals#filter', 'Tree::terminals_mut#filter', 'Tree::decisions#filter', 'Tree::terminal_indices#filter'):
+            i.rule = 'C07.R3'
+            ctx.insts.append(i)
     # ---- R5: the operators prune on the fly: the removal sites of the composition are part of C07's definedness clause
     from ..core import Ctx
     sub = Ctx(ctx.facts, ctx.tier, ctx.prop)
